@@ -102,7 +102,7 @@ def check_case(case):
     p = p0
     prep = []
     for step in case["prep"]:
-        q, outcome, desc = sched.apply_step(p, step, sctx)
+        q, outcome, desc = sched.apply_step_excl(PROP, p, step, sctx)
         if outcome == "accepted":
             p = q
             desc.pop("err", None)
@@ -118,6 +118,10 @@ def check_case(case):
         if not loops:
             raise Skip("no-loop")
         site = loops[norm[1] % len(loops)]
+        from ..findings import excluded_step
+
+        if excluded_step(PROP, ["divide_loop", 0, 0, 0], p):
+            raise Skip("excluded-known-finding")
         qf = [2, 4, 3][norm[2] % 3]
         try:
             q = S.divide_loop(p, sched.cursor_at(p, site.path), qf, ["do", "di"], perfect=True)
@@ -125,7 +129,7 @@ def check_case(case):
             raise Skip("normaliser-rejected")
         desc = {"op": "divide_loop", "perfect": True, "q": qf, "loop": sched.path_str(site.path)}
     else:
-        q, outcome, desc = sched.apply_step(p, [norm[0], norm[1], norm[2], 0], sctx)
+        q, outcome, desc = sched.apply_step_excl(PROP, p, [norm[0], norm[1], norm[2], 0], sctx)
         if CTX is not None and outcome != "noop":
             CTX.op(norm[0], outcome)
         if outcome != "accepted":
